@@ -316,6 +316,58 @@ def deep_texts(rng, n):
             ('deep rule %d' % n, rule)]
 
 
+def rule_edit_probes():
+    """Systematic hostile rule texts: every edit form x every label pair of
+    a 4-atom reactant (incl. an undefined label, the same label twice, a pair
+    without a pattern bond, an 'any' pattern bond) and every single-atom edit
+    incl. 'modify atomtype' with all kinds of atom types."""
+    import itertools
+    pat = ('reactant a{C labeled c1 C labeled c2 single bond to c1 H labeled '
+           'h1 any bond to c2 O labeled o1 double bond to c1}')
+    two = ['break bond (%s,%s)', 'break single bond (%s,%s)',
+           'break double bond (%s,%s)', 'break aromatic bond (%s,%s)',
+           'break ring bond (%s,%s)', 'form bond (%s,%s)',
+           'form triple bond (%s,%s)', 'form any bond (%s,%s)',
+           'modify bond (%s,%s,double)', 'modify bond (%s,%s,any)',
+           'modify bond (%s,%s,aromatic)', 'increase bond order (%s,%s)',
+           'decrease bond order (%s,%s)']
+    one = ['increase number of radical (%s)',
+           'decrease number of radical (%s)',
+           'modify number of radical (%s, 2)',
+           'modify number of radical (%s, 99)',
+           'increase formal charge (%s)', 'decrease formal charge (%s)',
+           'modify atomtype (%s, C.)', 'modify atomtype (%s, O+)',
+           'modify atomtype (%s, C*)', 'modify atomtype (%s, aromatic C)',
+           'modify atomtype (%s, nonringatom C.)', 'modify atomtype (%s, $)',
+           'modify atomtype (%s, C:.)', 'modify atomtype (%s, C?)',
+           'modify atomtype (%s, c)', 'modify atomtype (%s, Xx)']
+    out = []
+    for f in two:
+        for a, b in itertools.product(['c1', 'c2', 'h1', 'o1', 'zz'],
+                                      repeat=2):
+            out.append('rule r{%s %s}' % (pat, f % (a, b)))
+    for f in one:
+        for a in ['c1', 'h1', 'zz', '']:
+            out.append('rule r{%s %s}' % (pat, f % a))
+    out += [
+        'rule r{reactant a{C labeled c1} reactant b{C labeled c1} form bond '
+        '(c1,c1)}',
+        'rule r{reactant a{C labeled c1} reactant b{O labeled o1} form bond '
+        '(c1,o1) increase number of radical (c1)}',
+        'rule r{reactant a{C labeled c1} reactant a{O labeled o1} form bond '
+        '(c1,o1)}',
+        'rule r{positive reactant a{C+ labeled c1} decrease formal charge '
+        '(c1)}',
+        'rule r{reactant a{c labeled c1 c labeled c2 aromatic bond to c1} '
+        'break aromatic bond (c1,c2)}',
+        'rule r{reactant a{C labeled c1 C labeled c2 partial bond to c1} '
+        'break partial bond (c1,c2)}',
+        'rule r{reactant a{C labeled c1 C labeled c2 quadruple bond to c1} '
+        'increase bond order (c1,c2)}',
+    ]
+    return out
+
+
 def valid_corpus(ctx, rng, n):
     out = []
     for _ in range(n):
@@ -372,6 +424,9 @@ def run_shard(ctx):
         t2 = mutate(rng, mutate(rng, t))
         check_text(ctx, t2, 'double mutation')
         check_text(ctx, t.replace('\n', '\r\n'), 'CRLF line ends')
+    for i, t in enumerate(rule_edit_probes()):
+        if ctx.mine(i):
+            check_text(ctx, t, 'systematic rule-edit probe')
     for _ in range(300 if q else 20000):
         check_text(ctx, random_text(rng), 'random text')
     sizes = [50, 120, 150, 200, 300, 400]
